@@ -12,8 +12,8 @@ pub static PROP: PropDef = PropDef {
     builds: opt_and_dbg,
     max_tape: 420,
     cases: |t| match t {
-        Tier::Quick => 5_000,
-        Tier::Thorough => 150_000,
+        Tier::Quick => 60_000,
+        Tier::Thorough => 1_000_000,
     },
     fixed: no_fixed,
     check,
